@@ -293,6 +293,8 @@ def r3(ctx: Ctx) -> None:
                 if nm.startswith("self") or nm in ("None",):
                     continue
                 defs = rd.reaching(cp.id, nm)
+                if not defs and "." in nm:
+                    continue  # an attribute of a local object (`queued.append_files`): judged through its root variable
                 inside = [d for d in defs if any(fr.kind == "loop" and fr.node is loop_ast for fr in g.nodes[d].frames)]
                 ok = bool(defs) and len(inside) == len(defs)
                 ctx.ob("C01.R3", f, f"argument `{nm}` of commit-point call is defined inside the retry iteration", cp, ok,
